@@ -576,7 +576,10 @@ class Conv:
                     for r in rest:
                         cur = t.atom('getattr', (cur, r))
                     return cur
-                return t.atom('attr', (self.canon(d),))
+                cd = self.canon(d)
+                if getattr(self, 'forward_attrs', False) and ('@' + cd) in self.env:
+                    return self.env['@' + cd]
+                return t.atom('attr', (cd,))
             return t.atom('getattr', (self.expr(n.value), n.attr))
         if isinstance(n, ast.BinOp):
             a = self.expr(n.left)
